@@ -427,42 +427,69 @@ func c06(c *an.Ctx) {
 		if nLocal == 0 || nRemote == 0 {
 			o.Fail(p.Pos(fn.Pos()), "planObject must split selections into local and per-service groups (found %d/%d)", nLocal, nRemote)
 		}
-		// _federation appended under needKey && !hasKey
-		found := false
-		for _, l := range an.StructLits(fn, "Selection") {
-			nm, _ := an.ConstString(l.Fields["Name"])
-			if nm == "" {
-				if g, ok := an.Unload(l.Fields["Name"]).(*ssa.Global); ok {
-					nm = g.Name()
+		// the _federation key selection is appended whenever a sub-plan for another service was created
+		var subPlanAppends []ssa.Instruction
+		an.Instrs(fn, func(i ssa.Instruction) {
+			st, ok := i.(*ssa.Store)
+			if !ok {
+				return
+			}
+			if fa, ok := st.Addr.(*ssa.FieldAddr); ok && an.FieldName(fa.X.Type(), fa.Field) == "After" {
+				if call, ok := st.Val.(*ssa.Call); ok {
+					if b, ok := call.Call.Value.(*ssa.Builtin); ok && b.Name() == "append" && an.LoopHeaderOf(i) != nil {
+						subPlanAppends = append(subPlanAppends, i)
+					}
 				}
 			}
+		})
+		if len(subPlanAppends) == 0 {
+			o.Fail(p.Pos(fn.Pos()), "planObject never appends a sub-plan for another service")
+			return
+		}
+		found := false
+		for _, l := range an.StructLits(fn, "Selection") {
 			s := an.Expr(l.Fields["Name"])
 			if !(s == "\"_federation\"" || strings.Contains(s, "federationField")) {
 				continue
 			}
 			found = true
 			o.Site(l.Alloc)
-			gs := strings.Join(an.GuardStrings(l.Alloc.Block()), " ")
-			if !strings.Contains(gs, "needKey") {
-				o.FailAt(l.Alloc, "the _federation key selection is not tied to needKey (guards: %s)", gs)
+			reach := false
+			for _, a := range subPlanAppends {
+				if an.Reach(fn, a, an.NewBlocker())[l.Alloc] {
+					reach = true
+				}
+			}
+			if !reach {
+				o.FailAt(l.Alloc, "the _federation key selection cannot be added on a path on which a sub-plan for another service was created")
+			}
+			// a boolean flag that gates the key must become true where sub-plans are created
+			for _, g := range an.GuardsOf(l.Alloc.Block()) {
+				ph, ok := g.Cond.(*ssa.Phi)
+				if !ok || !g.Polarity {
+					continue
+				}
+				if bt, ok := ph.Type().Underlying().(*types.Basic); !ok || bt.Kind() != types.Bool {
+					continue
+				}
+				okSet := false
+				for k, e := range ph.Edges {
+					if cst, ok := e.(*ssa.Const); ok && cst.Value != nil && cst.Value.ExactString() == "true" {
+						for _, a := range subPlanAppends {
+							pb := ph.Block().Preds[k]
+							if an.LoopHeaderOf(a) != nil && (an.LoopHeaderOf(pb.Instrs[0]) == an.LoopHeaderOf(a) || pb == an.LoopHeaderOf(a)) {
+								okSet = true
+							}
+						}
+					}
+				}
+				if !okSet {
+					o.FailAt(l.Alloc, "the flag that gates the _federation key selection is not set where sub-plans for other services are created")
+				}
 			}
 		}
 		if !found {
 			o.Fail(p.Pos(fn.Pos()), "planObject never adds the _federation key selection: objects reached through a hop could not be matched back to their parent")
-		}
-		// needKey set whenever there is another service
-		okNeed := false
-		an.Instrs(fn, func(i ssa.Instruction) {
-			if phi, ok := i.(*ssa.Phi); ok && phi.Comment == "needKey" {
-				for _, e := range phi.Edges {
-					if cst, ok := e.(*ssa.Const); ok && cst.Value != nil && cst.Value.ExactString() == "true" {
-						okNeed = true
-					}
-				}
-			}
-		})
-		if !okNeed {
-			o.Fail(p.Pos(fn.Pos()), "needKey is never set for selections on other services")
 		}
 	})
 
